@@ -24,7 +24,7 @@
    format has no place for the distinction): tagged_blocks=None beside a layer info, layer_count=0
    with (empty) lists, opacity/kind without overlay colour, presence flag without parameters. *)
 From PsdV Require Import Base.Prelude Psd.Codec Psd.Model Psd.Legacy Psd.Proofs Psd.Leaf Psd.LeafProofs Psd.Descriptor Psd.DescriptorProofs Psd.Effects Psd.EffectsProofs
-  Psd.Patterns Psd.PatternsProofs Psd.Struct Psd.Adjust Psd.AdjustProofs Psd.Vector Psd.VectorProofs Psd.Typed.
+  Psd.Patterns Psd.PatternsProofs Psd.Struct Psd.Adjust Psd.AdjustProofs Psd.Vector Psd.VectorProofs Psd.Linked Psd.LinkedProofs Psd.Typed.
 From Coq Require Import ZArith List Bool Lia.
 Import ListNotations.
 Open Scope Z_scope.
@@ -493,6 +493,81 @@ Theorem vector_mask_roundtrip_refuted :
   exists bs n, write_vmask 2 0 [] = Ok (bs, n) /\ read_vmask bs = Err AssertErr.
 Proof. exists [0; 0; 0; 2; 0; 0; 0; 0], 8. split; vm_compute; reflexivity. Qed.
 Print Assumptions vector_mask_roundtrip_refuted.
+
+(* ------------------------------------------------------------------ Stage 3 (3): linked layers (Psd/Linked.v)
+   LinkedLayer versions 1..7 of the three kinds, with the optional descriptor blocks, the time stamp, the data bytes
+   and the version-dependent tail (child id, modification time, lock state); LinkedLayers = 8-byte length blocks
+   padded to 4.  [rest'] is what follows the item inside its block (the reader of the list ignores it). *)
+Theorem linked_layer_roundtrip : forall enc_s dec_s units t pad l bs n tail,
+  wf_terms t = true -> wf_linked enc_s dec_s units l = true -> write_linked enc_s t pad l = Ok (bs, n) ->
+  n = len bs /\ exists rest', read_linked dec_s units t (bs ++ tail) = Ok (l, t, rest').
+Proof.
+  intros enc_s dec_s units t pad l bs n tail Hw Hwf H. split; [exact (wtruth_linked enc_s t pad l bs n H)|].
+  exact (linked_rt enc_s dec_s units t pad l bs n tail Hw Hwf H).
+Qed.
+Print Assumptions linked_layer_roundtrip.
+Theorem linked_layers_roundtrip : forall enc_s dec_s units t l bs n,
+  wf_terms t = true -> forallb (wf_linked enc_s dec_s units) l = true -> write_linked_layers enc_s t l = Ok (bs, n) ->
+  n = len bs /\ read_linked_layers dec_s (S (length bs)) units t bs = Ok (l, t).
+Proof.
+  intros enc_s dec_s units t l bs n Hw Hwf H. split; [exact (wtruth_linked_layers enc_s t l bs n H)|].
+  rewrite <- (app_nil_r bs) at 2. apply (linked_layers_rt enc_s dec_s units t Hw l bs n [] (S (length bs)) Hwf H); [reflexivity|lia].
+Qed.
+Print Assumptions linked_layers_roundtrip.
+Theorem linked_layers_block_roundtrip : forall enc_s dec_s units t v pad sg key l bs n rest,
+  (pad = 1 \/ pad = 2 \/ pad = 4) -> memz sg model_tb_sigs = true ->
+  wf_terms t = true -> forallb (wf_linked enc_s dec_s units) l = true ->
+  write_payload_block v pad sg key (write_linked_layers enc_s t l) = Ok (bs, n) ->
+  read_payload_block (fun body => read_linked_layers dec_s (S (length body)) units t body) v pad (bs ++ rest)
+  = Ok (Some (sg, key, (l, t), rest)).
+Proof.
+  intros enc_s dec_s units t v pad sg key l bs n rest Hp Hs Hw Hwf H.
+  apply (payload_block_rt v pad sg key (write_linked_layers enc_s t l)
+           (fun body => read_linked_layers dec_s (S (length body)) units t body) (l, t) bs n rest Hp Hs
+           (wtruth_linked_layers enc_s t l)); [|exact H].
+  intros body m Hb. exact (proj2 (linked_layers_roundtrip enc_s dec_s units t l body m Hw Hwf Hb)).
+Qed.
+Print Assumptions linked_layers_block_roundtrip.
+
+Definition ex_ll_desc : dval := DDesc OS_Objc [65] [110; 117; 108; 108] [([107; 49; 50; 51; 52], DBool true)].
+Definition ex_linked : list linked :=
+  [mkLinked K_liFD 7 [49; 50] [65; 0xD83D] 0x706e6720 0 None (Some (DBlock 16 ex_ll_desc)) None None (Some [1; 2; 3])
+            (Some []) (Some 4607182418800017408) (Some 1);
+   mkLinked K_liFE 4 [] [] 1 2 (Some 18446744073709551615) None (Some (DBlock 16 ex_ll_desc))
+            (Some [2024; 1; 2; 3; 4; 4607182418800017408]) (Some [9]) None None None;
+   mkLinked K_liFE 2 [] [] 1 2 (Some 0) None (Some (DBlock 16 ex_ll_desc)) None (Some [9; 9]) None None None;
+   mkLinked K_liFA 1 [] [66] 0 0 None None None None None None None None].
+Example linked_layers_roundtrip_satisfiable :
+  forallb (wf_linked raw_codec raw_codec []) ex_linked = true /\
+  exists bs n, write_linked_layers raw_codec [] ex_linked = Ok (bs, n) /\ n = 328.
+Proof. split; [vm_compute; reflexivity|]. do 2 eexists. split; [vm_compute; reflexivity|reflexivity]. Qed.
+
+(* what wf_linked excludes - structures whose parts contradict each other; the writer goes by what is present, the
+   reader by kind and version: a child id under version 4 is written and left unread; the data of an alias is
+   counted in the header and not written; a version-5 item without a child id cannot be read back *)
+Theorem linked_layer_roundtrip_refuted :
+  (exists l bs n l' t' rest', ll_version l = 4 /\ ll_child l = Some [66] /\ write_linked raw_codec [] 1 l = Ok (bs, n) /\
+      read_linked raw_codec [] [] bs = Ok (l', t', rest') /\ ll_child l' = None /\ rest' <> []) /\
+  (exists l bs n l' t' rest', ll_kind l = K_liFA /\ ll_data l = Some [7] /\ write_linked raw_codec [] 1 l = Ok (bs, n) /\
+      read_linked raw_codec [] [] bs = Ok (l', t', rest') /\ ll_data l' = None) /\
+  (exists l bs n, ll_version l = 5 /\ ll_child l = None /\ write_linked raw_codec [] 1 l = Ok (bs, n) /\
+      read_linked raw_codec [] [] bs = Err IOErr).
+Proof.
+  split; [|split].
+  - exists (mkLinked K_liFD 4 [49] [65] 1 2 None None None None (Some [7;8]) (Some [66]) None None).
+    exists [108; 105; 70; 68; 0; 0; 0; 4; 1; 49; 0; 0; 0; 1; 0; 65; 0; 0; 0; 1; 0; 0; 0; 2; 0; 0; 0; 0; 0; 0; 0; 2; 0; 7; 8; 0; 0; 0; 1; 0; 66], 41.
+    exists (mkLinked K_liFD 4 [49] [65] 1 2 None None None None (Some [7;8]) None None None), [], [0; 0; 0; 1; 0; 66].
+    split; [reflexivity|]. split; [reflexivity|]. split; [vm_compute; reflexivity|]. split; [vm_compute; reflexivity|].
+    split; [reflexivity|discriminate].
+  - exists (mkLinked K_liFA 1 [] [] 0 0 None None None None (Some [7]) None None None).
+    exists [108; 105; 70; 65; 0; 0; 0; 1; 0; 0; 0; 0; 0; 0; 0; 0; 0; 0; 0; 0; 0; 0; 0; 0; 0; 0; 0; 0; 1; 0; 0; 0; 0; 0; 0; 0; 0; 0], 38.
+    exists (mkLinked K_liFA 1 [] [] 0 0 None None None None None None None None), [], [].
+    split; [reflexivity|]. split; [reflexivity|]. split; [vm_compute; reflexivity|]. split; [vm_compute; reflexivity|reflexivity].
+  - exists (mkLinked K_liFD 5 [] [] 0 0 None None None None (Some [7]) None None None).
+    exists [108; 105; 70; 68; 0; 0; 0; 5; 0; 0; 0; 0; 0; 0; 0; 0; 0; 0; 0; 0; 0; 0; 0; 0; 0; 0; 0; 0; 1; 0; 7], 31.
+    split; [reflexivity|]. split; [reflexivity|]. split; vm_compute; reflexivity.
+Qed.
+Print Assumptions linked_layer_roundtrip_refuted.
 
 (* back-patching the length = emitting the inner bytes after the packed length *)
 Theorem length_block_backpatch : forall buf lb body,
